@@ -344,7 +344,14 @@ type c11Gen struct {
 	units   map[string][]string // field units declared per scope
 	clean   bool                // avoid every construct with a recorded known finding (most cases), so that they pass the whole oracle
 	inWhile bool
+	// single-segment Scope(NAME) directives: where they stand and what they mean there; the parser resolves them only after
+	// the whole table has been read, so a nearer NAME declared BEHIND the directive captures it (known finding
+	// scope-search-shadowed-later): avoided in clean cases, recorded as a feature otherwise
+	searches   []c11Search
+	searchSegs map[string]bool
 }
+
+type c11Search struct{ from, tgt []string }
 
 func c11Key(p []string) string { return strings.Join(p, ".") }
 
@@ -364,6 +371,9 @@ func (g *c11Gen) fresh(prefix byte, scope []string) string {
 			s = fmt.Sprintf("%c_%02d", prefix, r.intn(6))
 		default:
 			s = string([]byte{lead[r.intn(len(lead))], rest[r.intn(len(rest))], rest[r.intn(len(rest))], rest[r.intn(len(rest))]})
+		}
+		if g.clean && g.searchSegs[s] {
+			continue
 		}
 		if _, ok := g.decl[c11Key(append(append([]string(nil), scope...), s))]; !ok {
 			return s
@@ -511,6 +521,8 @@ func (g *c11Gen) objs(scope []string, depth, n int) []c11Node {
 			case r.chance(50) && g.visible(scope, tgt):
 				nm = c11Name{segs: []string{tgt[len(tgt)-1]}}
 				g.feature["scope-single-seg-search"] = true
+				g.searches = append(g.searches, c11Search{append([]string(nil), scope...), append([]string(nil), tgt...)})
+				g.searchSegs[tgt[len(tgt)-1]] = true
 			default:
 				nm = c11Name{root: true, segs: tgt}
 				g.feature["scope-absolute"] = true
@@ -878,6 +890,14 @@ func c11Fix(r *vrng, ns []c11Node) {
 func (g *c11Gen) table(first bool) []c11Node {
 	r := g.r
 	nm := len(g.methods)
+	ns := len(g.searches)
+	defer func() {
+		for _, sr := range g.searches[ns:] {
+			if !g.visible(sr.from, sr.tgt) {
+				g.feature["scope-search-shadowed-later"] = true
+			}
+		}
+	}()
 	var top []c11Node
 	if first {
 		top = g.objs(nil, 3, 2+r.intn(6))
@@ -1065,7 +1085,7 @@ func (g *c11Gen) deferredSeq() []c11Node {
 }
 
 func c11NewGen(r *vrng) *c11Gen {
-	g := &c11Gen{r: r, decl: map[string]string{}, feature: map[string]bool{}, units: map[string][]string{}}
+	g := &c11Gen{r: r, decl: map[string]string{}, feature: map[string]bool{}, units: map[string][]string{}, searchSegs: map[string]bool{}}
 	g.scopes = append(g.scopes, nil)
 	for _, s := range []string{"_GPE", "_PR_", "_SB_", "_SI_", "_TZ_"} {
 		g.decl[s] = "scope"
@@ -1214,6 +1234,9 @@ func TestVerifC11(t *testing.T) {
 		c11Hand("b-D6-scope-3seg", "path-descends-through-scoped-object,scope-absolute", []c11Node{cont("scope", N(false, 0, "_SB_"), cont("device", N(false, 0, "DEV0"), cont("device", N(false, 0, "DEV1")))),
 			cont("scope", N(true, 0, "_SB_", "DEV0", "DEV1"), name(N(false, 0, "N000"), i1(1)))}),
 		c11Hand("b-scope-root", "scope-root", []c11Node{cont("scope", N(true, 0), name(N(false, 0, "N000"), i1(1)))}),
+		// the witness of C11.scope_search_shadowed_later_counterexample
+		c11Hand("b-scope-search-shadowed-later", "scope-single-seg-search,scope-search-shadowed-later", []c11Node{cont("device", N(false, 0, "DEV0")),
+			cont("scope", N(true, 0, "DEV0"), cont("scope", N(false, 0, "DEV0"), name(N(false, 0, "N000"), i1(1))), cont("device", N(false, 0, "DEV0")))}),
 		c11Hand("b-name-caret", "name-caret", []c11Node{cont("scope", N(false, 0, "_SB_"), cont("device", N(false, 0, "DEV0"), name(N(false, 1, "N000"), i1(1))))}),
 		c11Hand("b-name-dual-relative", "name-relative-multi", []c11Node{cont("scope", N(false, 0, "_SB_"), cont("device", N(false, 0, "DEV0")), name(N(false, 0, "DEV0", "N000"), i1(1)))}),
 		c11Hand("b-call-forward-backward", "call,call-nested", []c11Node{method(N(false, 0, "M000"), 2, &c11List{kind: "ret", kids: []c11Node{call("M001", c11Leaf{"A0", []byte{0x68}}, call("M002"), c11Leaf{"A1", []byte{0x69}})}}),
